@@ -50,7 +50,7 @@ func c09Check(cs c09Case) (ok bool, sig, expected, observed string) {
 var c09Atoms = []string{
 	"0", "1", "(-1)", "0.5", `""`, `"a"`, "true", "nil", "[]", "[1]", "{}", "{a: 1}", // reduced set: first 12
 	"9223372036854775807", "0.0", `"é"`, "false", "[[1]]", `{a: {b: 1}}`,
-	"i", "f", "s", "e", "b", "n", "is", "as", "m", "st", "ps", "pi", "npi", "nps", "nsl", "nm", "sp", "zz", "st.Inner", "sn.Inner", "min", "i8", "u64", "f32", "rows", "rows[1]", "rows[2].A",
+	"{a: {x: 1, y: 2}, b: 3}", "[{a: {x: 1}, b: [2]}, {c: {}}]", "i", "f", "s", "e", "b", "n", "is", "as", "m", "st", "ps", "pi", "npi", "nps", "nsl", "nm", "sp", "zz", "st.Inner", "sn.Inner", "min", "i8", "u64", "f32", "rows", "rows[1]", "rows[2].A",
 }
 
 const c09Reduced = 12
